@@ -318,3 +318,62 @@ Definition fetch_reqs (ff : pfilter) (nsources : nat) : list pfilter * pfilter :
 (* same set of names (order and repetitions ignored) *)
 Definition same_names (a b : list key) : bool :=
   forallb (fun k => memb k b) a && forallb (fun k => memb k a) b.
+
+(* ------------------------------------------------------------------ requests in flight together *)
+(* doFetch acquires one docFieldsFilter (decoder + output buffer) per request and, per document,
+   decodes into it, removes nodes, encodes from it. Several Fetch handlers run at once, so the
+   per-document steps of different requests interleave arbitrarily. [dec_of] says which decoder a
+   request works on: [private] = every request its own (the code: a pooled filter is owned by one
+   request between acquire and release, and its decoder belongs to it alone); [shared] = the
+   variant in which two filters hold the same decoder (kept as the refuted variant). *)
+Inductive step :=
+| SDecode (r : nat) (d : doc)      (* request r: decoder.DecodeBytes(doc) *)
+| SRemove (r : nat)                (* request r: collect + Suicide, by r's filter, on what its decoder holds *)
+| SEncode (r : nat).               (* request r: decoder.Encode -> the document sent for r *)
+
+Definition step_req (s : step) : nat :=
+  match s with SDecode r _ => r | SRemove r => r | SEncode r => r end.
+
+Record dstate := mkDS { ds_doc : doc; ds_obj : res obj }.
+
+Definition remove_listed (d : doc) (fields : list key) (allow : bool) (ro : res obj) : res obj :=
+  match ro with
+  | Ok o => fold_left step_allow (filter (to_remove d fields allow) (arr o)) (Ok o)
+  | e => e
+  end.
+
+Definition encode_doc (ds : dstate) : res doc :=
+  bind (bind (ds_obj ds) (fun o => encode o (S (length (ds_doc ds)))))
+       (fun ids => Ok (map (fld_of (ds_doc ds)) ids)).
+
+Fixpoint run (dec_of : nat -> nat) (fl : nat -> list key * bool) (st : nat -> option dstate)
+             (steps : list step) : list (nat * res doc) :=
+  match steps with
+  | [] => []
+  | SDecode r d :: t =>
+      run dec_of fl (upd st (dec_of r) (Some (mkDS d (Ok (decode (length d)))))) t
+  | SRemove r :: t =>
+      let st' := match st (dec_of r) with
+                 | Some ds => upd st (dec_of r)
+                                (Some (mkDS (ds_doc ds)
+                                         (remove_listed (ds_doc ds) (fst (fl r)) (snd (fl r)) (ds_obj ds))))
+                 | None => st
+                 end in
+      run dec_of fl st' t
+  | SEncode r :: t =>
+      (r, match st (dec_of r) with Some ds => encode_doc ds | None => Fault end) :: run dec_of fl st t
+  end.
+
+Definition private (r : nat) : nat := r.
+Definition shared (_ : nat) : nat := 0.
+Definition no_decoders : nat -> option dstate := fun _ => None.
+
+(* what one request does on its own: decode, remove, encode, document after document *)
+Definition request_steps (r : nat) (docs : list doc) : list step :=
+  flat_map (fun d => [SDecode r d; SRemove r; SEncode r]) docs.
+
+Definition steps_of (r : nat) (steps : list step) : list step :=
+  filter (fun s => Nat.eqb (step_req s) r) steps.
+
+Definition outputs_of (r : nat) (outs : list (nat * res doc)) : list (res doc) :=
+  map snd (filter (fun p => Nat.eqb (fst p) r) outs).
